@@ -299,7 +299,7 @@ impl Prop for C04 {
             3 => Assembly::ErrMsg,
             _ => Assembly::ColName,
         };
-        let mut c = if g.chance(1, 600) {
+        let mut c = if g.chance(1, 600) && !g.fuzzing {
             let bin = g.coin();
             let (cols, row) = crate::gens::gen_big_layout_row(g, bin);
             gen_case(g, 0, Assembly::Layout { bin, cols, row })
